@@ -121,6 +121,7 @@ type lRun struct {
 	trace []string
 	c01   *c01Tracer
 	c08   *c08Tracer
+	c02   *c02Tracer
 }
 
 func (x *lRun) fail(sig, detail string) {
@@ -648,6 +649,9 @@ func (x *lRun) block(dt int64) bool {
 	if x.c08 != nil {
 		x.c08.step()
 	}
+	if x.c02 != nil {
+		x.c02.step(BankOps(x.w.LastBlockEvents))
+	}
 	x.invariants(fmt.Sprintf("after block %d", x.w.Height))
 	return true
 }
@@ -676,6 +680,9 @@ func runLedgerHistory(t *testing.T, col *Collector, prop string, h lHist) {
 	}
 	if prop == "C08" {
 		x.c08 = newC08Tracer(x)
+	}
+	if prop == "C02" {
+		x.c02 = newC02Tracer(x)
 	}
 	for k, op := range h.Ops {
 		x.step = k
@@ -712,6 +719,9 @@ func runLedgerHistory(t *testing.T, col *Collector, prop string, h lHist) {
 		if x.c08 != nil {
 			x.c08.step()
 		}
+		if x.c02 != nil {
+			x.c02.step(BankOps(res.Events))
+		}
 		col.Op(op.Op, res.Kind(), amt)
 		fmt.Fprintf(&x.fp, "%s:%s;", op.Op, res.Kind())
 		if res.OK() {
@@ -731,6 +741,15 @@ func runLedgerHistory(t *testing.T, col *Collector, prop string, h lHist) {
 		col.mu.Lock()
 		n, _ := col.rep.Extra["levelB_single_swap_blocks"].(int)
 		col.rep.Extra["levelB_single_swap_blocks"] = n + x.c01.swapsB
+		col.mu.Unlock()
+	}
+	if x.c02 != nil {
+		col.Case(h.ID, x.c02.caseText(h.ID))
+		col.mu.Lock()
+		n, _ := col.rep.Extra["share_mints"].(int)
+		col.rep.Extra["share_mints"] = n + x.c02.mints
+		n2, _ := col.rep.Extra["share_burns"].(int)
+		col.rep.Extra["share_burns"] = n2 + x.c02.burns
 		col.mu.Unlock()
 	}
 	if x.c08 != nil {
@@ -781,6 +800,9 @@ func runLedger(t *testing.T, prop string) {
 	switch prop {
 	case "C01":
 		header = "From Coq Require Import ZArith List Bool.\nFrom Elys Require Import Base.Res Base.Fn Models.AmmLedger Run.AmmLedgerRun.\nImport ListNotations.\nOpen Scope Z_scope.\n"
+		footer = "Definition M := Eval vm_compute in mismatches cases.\nPrint M.\n"
+	case "C02":
+		header = "From Coq Require Import ZArith List Bool.\nFrom Elys Require Import Base.Res Base.Fn Models.SumLedger Models.Shares Run.SharesRun.\nImport ListNotations.\nOpen Scope Z_scope.\n"
 		footer = "Definition M := Eval vm_compute in mismatches cases.\nPrint M.\n"
 	case "C08":
 		header = "From Coq Require Import ZArith List Bool.\nFrom Elys Require Import Base.Res Base.Fn Models.SumLedger Models.LevLedger Run.LevLedgerRun.\nImport ListNotations.\nOpen Scope Z_scope.\n"
